@@ -39,26 +39,24 @@ Definition positive_sizes (m : model) : bool :=
   forallb (fun wc => forallb (fun l => qltb 0 (l_e l)) (wc_layers wc)) (c_wallcons (m_cons m)) &&
   forallb (fun w => N.eqb (counts_total (sc_values w)) 7) (sch_week (m_sched m)) &&
   forallb (fun y => N.eqb (counts_total (sc_values y)) 365) (sch_year (m_sched m)) &&
-  forallb (fun d => Nat.eqb (length (sd_values d)) 24) (sch_day (m_sched m)) &&
-  (* a building-wide ventilation flow needs a habitable volume inside the envelope *)
-  match mt_gvent (m_meta m) with Some _ => qltb 0 (vol_env_inh_net m) | None => true end.
+  forallb (fun d => Nat.eqb (length (sd_values d)) 24) (sch_day (m_sched m)).
 
 Definition nonneg_physics (m : model) : bool :=
   let c := m_cons m in
   forallb (fun mt => match m_props mt with
-                     | Detailed k d cp _ => qltb 0 k && qleb 0 d && qleb 0 cp
+                     | Detailed k d cp _ => qleb 0 k && qleb 0 d && qleb 0 cp
                      | Resistance r _ => qleb 0 r end) (c_materials c) &&
-  forallb (fun g => qltb 0 (gl_u g) && in01 (gl_g g)) (c_glasses c) &&
-  forallb (fun f => qltb 0 (fr_u f) && in01 (fr_abs f)) (c_frames c) &&
+  forallb (fun g => qleb 0 (gl_u g) && in01 (gl_g g)) (c_glasses c) &&
+  forallb (fun f => qleb 0 (fr_u f) && in01 (fr_abs f)) (c_frames c) &&
   forallb (fun w => in01 (wnc_ff w) && qleb 0 (wnc_du w) && qleb 0 (wnc_c100 w) &&
                     match wnc_gglshwi w with Some g => in01 g | None => true end) (c_wincons c) &&
   forallb (fun t => qleb 0 (tb_l t)) (m_tbs m) &&
   forallb (fun l => qleb 0 (ld_area_pp l) && qleb 0 (ld_people_sens l) && qleb 0 (ld_people_lat l) &&
                     qleb 0 (ld_equip l) && qleb 0 (ld_light l)) (m_loads m) &&
-  opt_nonneg (mt_gvent (m_meta m)) && opt_pos (mt_n50test (m_meta m)) &&
+  opt_nonneg (mt_gvent (m_meta m)) && opt_nonneg (mt_n50test (m_meta m)) &&
   qleb 0 (mt_d_perim (m_meta m)) && qleb 0 (mt_rn_perim (m_meta m)) &&
-  forallb (fun o => opt_pos (wo_u o)) (m_ov_walls m) &&
-  forallb (fun o => opt_pos (wno_u o) && match wno_fshobst o with Some f => in01 f | None => true end) (m_ov_wins m).
+  forallb (fun o => opt_nonneg (wo_u o)) (m_ov_walls m) &&
+  forallb (fun o => opt_nonneg (wno_u o) && match wno_fshobst o with Some f => in01 f | None => true end) (m_ov_wins m).
 
 Definition saneb (m : model) : bool := closed m && positive_sizes m && nonneg_physics m.
 
